@@ -17,7 +17,7 @@ EXPECTED_PROBES = ["probe.arm_change_before_first_fit", "probe.query_right_after
 
 def generate(rnd, tier, index=0):
     regime = rnd.choice(["exact", "float"])
-    cfg, spare = gen.gen_cfg(rnd, with_np=rnd.random() < 0.7, allow_probs=False)
+    cfg, spare = gen.gen_cfg(rnd, with_np=rnd.random() < 0.7, allow_probs=False, scale=True)
     cfg["n_jobs"] = rnd.choice([1, 2, 3, 5, -1, -2, 64])
     cfg["backend"] = rnd.choice([None, "threading", "loky", "multiprocessing"])
     ctxl = is_contextual(cfg)
